@@ -302,6 +302,14 @@ def check_bulk_indexed(ctx, prog, fn, name, sites):
                 a = leaf_origins(prog, c, tt["args"][0], at=bb, terminal_only=True)
                 if a and all(y.kind == "param" and y.data == 2 and y.proj == ("f:1",) for y in a):
                     ok = True
+    if not ok:
+        # `into_iter().map(|(_, value)| value)`: the component is moved out instead of cloned
+        for c in prog.closures_of(fn):
+            if c.kind != "Closure":
+                continue
+            r = tracer(prog, c).place({"l": 0, "p": []})
+            if r and all(y.kind == "param" and y.data == 2 and y.proj == ("f:1",) for y in r):
+                ok = True
     ctx.check(ok, "bulk-by-index", name + ":returns-results", "%s does not return the result components" % name, where=where(fn))
 
 
